@@ -621,7 +621,7 @@ func DRREqual(a, b appencryption.DataRowRecord) bool {
 
 // HangAfter is the real time an SDK call may take before it is reported as blocked forever
 // (the clock the SDK sees is virtual; a call normally takes microseconds).
-var HangAfter = 40 * time.Second
+var HangAfter = 90 * time.Second
 
 // guard runs one SDK call under a watchdog: a call that never returns (a lock left held, a
 // wait that is never signalled) is a violation of every property that says "the operation
